@@ -1,4 +1,4 @@
-CONSTANTS N = 1 Q = 1 NCalls = 3
+CONSTANTS N = 1 Q = 1 NCalls = 3 WithObs = FALSE
 SPECIFICATION FairSpec
 INVARIANTS TypeOK
 PROPERTIES EveryCallReturns
